@@ -5,7 +5,7 @@ init_greenhouse_params do) with the model, compared inside Coq;
 audit: every clause of the property evaluated on the implementation alone (harness/impl/c09_audit.py)."""
 import copy
 import json
-from lib import fq, fql, cbool, cnat, clist
+from lib import fq, fql, cbool, cnat, clist, cstr
 
 SPECIAL = {"ZAF": 1, "JPN": 0, "PRK": 0, "KOR": 0}
 TOL = "(1#1000000000)"
@@ -13,18 +13,22 @@ IMPORTS = "From Allfed Require Import Base.QSeries Model.Series Model.SeriesChec
 OBS_KEYS = [(2, "reds", "reductions c"), (3, "cycle", "months_cycle c"), (4, "grown", "grown pw c"),
             (5, "norel", "norel_grown c"), (6, "area", "greenhouse_area (cN c) g"),
             (7, "frac", "greenhouse_fraction (cN c) g"), (8, "ghk", "greenhouse_kcals pw c g"),
-            (9, "prod", "outdoor_production pw c g")]
+            (9, "prod", "outdoor_production pw c g"),
+            (10, "prod_fat", "outdoor_nutrient pw c g {fat_base}"), (11, "prod_protein", "outdoor_nutrient pw c g {protein_base}"),
+            (12, "ghk_fat", "greenhouse_nutrient pw c g {fat_base} {fat_ratio}"),
+            (13, "ghk_protein", "greenhouse_nutrient pw c g {protein_base} {protein_ratio}")]
 CODE_NAMES = {90: "implementation accepts, model rejects", 91: "implementation rejects, model accepts",
               2: "all_months_reductions differ", 3: "months_cycle differs", 4: "KCALS_GROWN differs",
               5: "NO_RELOCATION_KCALS_GROWN differs", 6: "greenhouse area differs", 7: "greenhouse fraction differs",
-              8: "greenhouse crop kcals differ", 9: "outdoor production kcals differ"}
+              8: "greenhouse crop kcals differ", 9: "outdoor production kcals differ",
+              10: "outdoor production fat differs", 11: "outdoor production protein differs",
+              12: "greenhouse crop fat differs", 13: "greenhouse crop protein differs"}
 
 
 # ------------------------------------------------------------------ encoding
 
 def coq_crop(i):
-    hb = SPECIAL.get(i["code"])
-    hbm = "None" if hb is None else f"(Some {fq(hb)})"
+    hbm = f"(country_hbm {cstr(i['code'])})"     # the four special cases live in Model/Series.v
     return ("(Build_crop_in " + " ".join([
         cnat(i["N"]), cnat(i["start"]), fq(i["base"]), fql(i["seas"]), fq(i["ratios"][0]), fql(i["ratios"][1:]), hbm,
         cbool(i["rot"]), fq(i["exp"]), fq(i["area"]), cnat(i["hd"]), cnat(i["years"]), cnat(i["rotdelay"]),
@@ -42,7 +46,16 @@ def crop_term(r):
     table = clist([f"({fq(a)}, {fq(b)})" for a, b in r["pw"]])
     if r["accepted"]:
         o = r["obs"]
-        trip = [f"({code}%nat, {expr}, {fql(o[key])})" for code, key, expr in OBS_KEYS if key in o]
+        fmt = {k: fq(i[k]) for k in ("fat_base", "protein_base", "fat_ratio", "protein_ratio")}
+        # every fourth case evaluates the fat / protein model functions themselves; the others use the proved identity
+        # "nutrient series = fraction x kcal series" on the observed kcal series (four times cheaper to evaluate)
+        full = int(i["base"] * 1000) % 4 == 0
+        keys = OBS_KEYS if full else OBS_KEYS[:8] + [
+            (10, "prod_fat", "scaled (og_fraction c {fat_base}) " + fql(o["prod"])),
+            (11, "prod_protein", "scaled (og_fraction c {protein_base}) " + fql(o["prod"])),
+            (12, "ghk_fat", "scaled (rotation_ratio c {fat_base} {fat_ratio}) " + fql(o["ghk"])),
+            (13, "ghk_protein", "scaled (rotation_ratio c {protein_base} {protein_ratio}) " + fql(o["ghk"]))]
+        trip = [f"({code}%nat, {expr.format(**fmt)}, {fql(o[key])})" for code, key, expr in keys if key in o]
         obs = "(fun c g pw => " + clist(trip) + ")"
     else:
         obs = "(fun c g pw => [])"
